@@ -319,3 +319,37 @@ pub async fn run(workdir: &str) -> Value {
     let _ = std::fs::remove_dir_all(&base);
     json!({"runs": runs, "keys": keys.len(), "ops": ops.len(), "violations": violations})
 }
+
+
+/// where does PutObject(b1, key) write?  -> per key: {"created": [paths relative to the scratch directory]} | {"err": true} | {"panic": true}
+pub async fn locate(workdir: &str, keys: &[String]) -> Value {
+    let base = PathBuf::from(workdir);
+    let mut out = vec![];
+    let mut fs = fixture(&base).await;
+    let mut before = snapshot(&base);
+    for key in keys {
+        let r = std::panic::AssertUnwindSafe(put(&fs, "b1", key, "WITNESS")).catch_unwind().await;
+        let after = snapshot(&base);
+        let created: Vec<String> = after
+            .iter()
+            .filter(|(p, v)| before.get(*p) != Some(*v) && v.as_deref() == Some(b"WITNESS".as_slice()))
+            .map(|(p, _)| p.to_string_lossy().into_owned())
+            .collect();
+        let dirs: Vec<String> = after
+            .iter()
+            .filter(|(p, v)| v.is_none() && !before.contains_key(*p))
+            .map(|(p, _)| p.to_string_lossy().into_owned())
+            .collect();
+        out.push(match r {
+            Err(_) => json!({"panic": true}),
+            Ok(false) => json!({"err": true, "created": created, "dirs": dirs}),
+            Ok(true) => json!({"created": created, "dirs": dirs}),
+        });
+        if after != before {
+            fs = fixture(&base).await;
+            before = snapshot(&base);
+        }
+    }
+    let _ = std::fs::remove_dir_all(&base);
+    Value::Array(out)
+}
